@@ -859,8 +859,37 @@ func (ba *badgerBatch) PutWriteLog(writeLog writelog.WriteLog, annotations write
 		return fmt.Errorf("mkvs/pathbadger: write log already set")
 	}
 
+	// An insert of an unchanged pair is annotated with the already existing leaf. If that leaf was
+	// loaded from the database as part of an internal node (or as the root node of an earlier
+	// version) there is no stand-alone node the write log could refer to, so store one, as is done
+	// for newly created leaves.
+	resolved := make(writelog.Annotations, len(annotations))
+	copy(resolved, annotations)
+	for i, ann := range resolved {
+		if ann.InsertedNode == nil || ann.InsertedNode.Node == nil {
+			continue
+		}
+		iptr, ok := ann.InsertedNode.DBInternal.(*dbPtr)
+		if ok && !iptr.isInvalid() && !(iptr.isRoot() && iptr.version != ba.version) {
+			continue
+		}
+		ptr := &node.Pointer{
+			Clean: true,
+			Hash:  ann.InsertedNode.Hash,
+			Node:  ann.InsertedNode.Node,
+			DBInternal: &dbPtr{
+				version: ba.version,
+				index:   ba.lastIndex.Add(1),
+			},
+		}
+		if err := ba.PutNode(ptr); err != nil {
+			return err
+		}
+		resolved[i].InsertedNode = ptr
+	}
+
 	ba.writeLog = writeLog
-	ba.annotations = annotations
+	ba.annotations = resolved
 	return nil
 }
 
